@@ -2207,6 +2207,27 @@ class Exec:
         qual = f.name[5:]
         key = f.payload     # (path, qualname)
         con = self.registry.get(key)
+        # contract variants (path, qualname, tag): pick the variant whose constant parameters agree with the concrete arguments
+        variants = [k_ for k_ in self.registry if len(k_) > 2 and tuple(k_[:2]) == tuple(key)]
+        if variants:
+            from .extract import get_function
+            pnames = [a.arg for a in get_function(key[0], key[1], root=self.fn.root).node.args.args]
+            given = dict(zip(pnames, args))
+            given.update(kwargs)
+
+            def fits(c_):
+                for pn, spec in c_.params.items():
+                    if isinstance(spec, str) and spec.startswith('const:') and pn in given:
+                        v = given[pn]
+                        if isinstance(v, (bool, int, float, str)) or v is None:
+                            if v != ast.literal_eval(spec[6:]):
+                                return False
+                return True
+            if con is None or not fits(con):
+                for k_ in variants:
+                    if fits(self.registry[k_]):
+                        con = self.registry[k_]
+                        break
         short = qual.split('.')[-1]
         if short in self.contract.opaque or qual in self.contract.opaque:
             return self.call_opaque(qual, args, kwargs, st, node)
